@@ -218,7 +218,9 @@ def serve_proxy_io(proxy_channelX: Channel) -> None:
 
     def control(data: int) -> None:
         if data == RIO_WAIT:
-            control_chan.send(sub_io.wait())
+            # we are in a callback, i.e. in the receiver thread: waiting
+            # here would keep a later RIO_KILL from ever being handled
+            execmodel.start(lambda: control_chan.send(sub_io.wait()))
         elif data == RIO_KILL:
             sub_io.kill()
             control_chan.send(None)
